@@ -1,0 +1,32 @@
+//go:build verif
+// +build verif
+
+package seqio
+
+import "github.com/go-pars/pars"
+
+// Exports of package internals for the verification harness in /verif.
+// Compiled only with -tags verif; adds no behaviour.
+
+func VerifToOriginLength(n int) int   { return toOriginLength(n) }
+func VerifFromOriginLength(n int) int { return fromOriginLength(n) }
+
+func VerifValidateOrigin(p []byte, length int) error {
+	return validateOrigin(p, length, pars.Position{})
+}
+
+func VerifSlowOriginParser(length int) pars.Parser {
+	return slowGenBankOriginParser(length)
+}
+
+// VerifOriginFieldParser returns the ORIGIN field parser for a record whose
+// LOCUS line declared the given length, and an accessor for the parsed origin.
+func VerifOriginFieldParser(length, depth int) (pars.Parser, func() *Origin) {
+	gb := &GenBank{Origin: NewOrigin(nil)}
+	p := makeGenbankOriginParser(length)(gb, depth)
+	return p, func() *Origin { return gb.Origin }
+}
+
+func VerifParseReferenceInfo(s string) pars.Parser { return parseReferenceInfo(s) }
+
+func VerifIsLeapYear(y int) bool { return isLeapYear(y) }
